@@ -17,7 +17,7 @@ import (
 func init() {
 	core.Register(&core.Spec{
 		ID: "C02", Level: "exploration",
-		Rule: "one case = one generated table (0..6 rows x 1..5 columns, every 12th case 300 rows; cell texts from a hostile pool: delimiters, quotes, line breaks, tabs, colons, leading/trailing blanks, backslashes, empty text, NULL, non-ASCII, text an encoding cannot represent; one 'probe' cell per table names the character class) and one dialect: format CSV/TSV/LTSV/FIXED/JSON/JSONL x encoding UTF8/UTF8M/UTF16(LE|BE)(M)/SJIS x line break LF/CRLF/CR x enclose-all x without-header x strip-ending-line-break x json-escape x pretty-print. " +
+		Rule: "one case = one generated table (0..6 rows x 1..5 columns, every 12th case 300..420 rows, every 24th 1500..2500; cell texts from a hostile pool: delimiters, quotes, line breaks, tabs, colons, leading/trailing blanks, backslashes, empty text, NULL, non-ASCII, text an encoding cannot represent; one 'probe' cell per table names the character class) and one dialect: format CSV/TSV/LTSV/FIXED/JSON/JSONL x encoding UTF8/UTF8M/UTF16(LE|BE)(M)/SJIS x line break LF/CRLF/CR x enclose-all x without-header x strip-ending-line-break x json-escape x pretty-print. " +
 			"The real binary writes the table three ways — query result to --out, CREATE TABLE .. AS SELECT + COMMIT, INSERT .. SELECT into an existing file of that dialect + COMMIT — and a fresh csvq process re-imports each file under the same settings; cells must be equal (NULL and empty text coincide except in JSON/JSONL; fixed-length drops edge blanks). A refused write (exit != 0) must leave nothing behind / the file unchanged. Dialect preservation: an independent byte-level sniffer (BOM, UTF-16 endianness, line breaks, delimiter, quoting of every field, header row) is applied before and after an UPDATE of one cell. non-trivial = at least one write path succeeded and was re-imported and compared on a table with >= 1 row; distinct = table digest + dialect.",
 		Quick: 500, Thorough: 60000, FloorQuick: 150, FloorThorough: 20000,
 		CaseTimeout: 10 * time.Minute,
@@ -302,6 +302,9 @@ func c02Case(w *core.Worker, i int) {
 	nrows := r.Range(0, 6)
 	if i%12 == 11 {
 		nrows = r.Range(299, 420)
+		if i%24 == 23 {
+			nrows = r.Range(1500, 2500) // several loader / builder goroutines at work for a while
+		}
 	}
 	var hdr []string
 	var pos []string
